@@ -494,6 +494,61 @@ impl std::io::Write for Limited {
 }
 
 /// `DECODE family ef text urltab`
+/// `SLOWRT token-doc introspection-doc device-doc error-doc`: the four documents are read, written
+/// at once, and written and read again after more than a second of wall-clock time: the text and
+/// the accessors may not depend on WHEN a value is written (or on how long ago it was read).
+pub fn slowrt(ws: &[&str]) -> String {
+    if ws.len() != 4 {
+        return BAD.into();
+    }
+    let docs: Vec<Vec<u8>> = match ws.iter().map(|w| untok_bytes(w)).collect::<Option<Vec<_>>>() {
+        Some(d) => d,
+        None => return BAD.into(),
+    };
+    let tok = serde_json::from_slice::<BasicTokenResponse>(&docs[0]);
+    let tokx = serde_json::from_slice::<XToken>(&docs[0]);
+    let intro = serde_json::from_slice::<BasicTokenIntrospectionResponse>(&docs[1]);
+    let dev = serde_json::from_slice::<StandardDeviceAuthorizationResponse>(&docs[2]);
+    let devx = serde_json::from_slice::<XDev>(&docs[2]);
+    let err = serde_json::from_slice::<BasicErrorResponse>(&docs[3]);
+    let (tok, tokx, intro, dev, devx, err) = match (tok, tokx, intro, dev, devx, err) {
+        (Ok(a), Ok(b), Ok(c), Ok(d), Ok(e), Ok(f)) => (a, b, c, d, e, f),
+        _ => return "a-document-was-rejected".to_string(),
+    };
+    let write = || {
+        vec![
+            serde_json::to_string(&tok).unwrap(),
+            serde_json::to_string(&tokx).unwrap(),
+            serde_json::to_string(&intro).unwrap(),
+            serde_json::to_string(&dev).unwrap(),
+            serde_json::to_string(&devx).unwrap(),
+            serde_json::to_string(&err).unwrap(),
+            format!("{:?}|{:?}|{:?}|{:?}|{:?}", tok.expires_in(), dev.expires_in(), dev.interval(), devx.expires_in(), intro.exp()),
+        ]
+    };
+    let first = write();
+    std::thread::sleep(std::time::Duration::from_millis(1150));
+    let later = write();
+    if later != first {
+        return format!("text-depends-on-time first={} later={}", tok_bytes(first.join("\n").as_bytes()), tok_bytes(later.join("\n").as_bytes()));
+    }
+    // read back what was written late, wait again, write: still the same text
+    let dev2 = serde_json::from_str::<StandardDeviceAuthorizationResponse>(&later[3]);
+    let tok2 = serde_json::from_str::<BasicTokenResponse>(&later[0]);
+    let intro2 = serde_json::from_str::<BasicTokenIntrospectionResponse>(&later[2]);
+    std::thread::sleep(std::time::Duration::from_millis(1150));
+    match (dev2, tok2, intro2) {
+        (Ok(d), Ok(t), Ok(i)) => {
+            let again = [serde_json::to_string(&t).unwrap(), serde_json::to_string(&i).unwrap(), serde_json::to_string(&d).unwrap()];
+            if again[0] != first[0] || again[1] != first[2] || again[2] != first[3] {
+                return format!("second-round-trip-depends-on-time {}", tok_bytes(again.join("\n").as_bytes()));
+            }
+            "stable".to_string()
+        }
+        _ => "read-back-failed".to_string(),
+    }
+}
+
 pub fn decode(ws: &[&str]) -> String {
     if ws.len() != 4 {
         return BAD.into();
